@@ -48,6 +48,9 @@ type RecDev struct {
 	FailNext int
 	// SetHook, if set, is called at the beginning of every Set (outside the lock)
 	SetHook func(n int)
+	// PostHook, if set, is called after a Set was applied; a non-nil error is returned to the datastore although
+	// the device holds the change (the reply got lost)
+	PostHook func(n int) error
 	// SyncFn is run by Sync (C13 scripts)
 	SyncFn func(ctx context.Context, cfg *config.Sync, ch chan *target.SyncUpdate)
 	nSet   int
@@ -116,6 +119,11 @@ func (r *RecDev) Set(ctx context.Context, src target.TargetSource) (*sdcpb.SetDa
 	}
 	r.Sets = append(r.Sets, rec)
 	ApplyToConfig(r.Config, dels, upds)
+	if r.PostHook != nil {
+		if err := r.PostHook(n); err != nil {
+			return nil, err
+		}
+	}
 	return &sdcpb.SetDataResponse{}, nil
 }
 
